@@ -212,11 +212,15 @@ func (in *Interp) installStubs3() {
 	S["strconv.AppendFloat"] = func(in *Interp, a []Value) Value {
 		f := a[1].(*smt.Term)
 		if !f.IsConst() {
-			abortf("unsupported: strconv.AppendFloat of a symbolic value (contract stub not in spike)")
+			f = in.Ctx.Concretize(f)
+			in.StubHits["concretized: strconv.AppendFloat of a symbolic float"]++
 		}
-		dst := in.concreteBytes(a[0], "AppendFloat dst")
-		fmtc := byte(a[2].(*smt.Term).Val.Uint64())
-		return in.byteSlice(strconv.AppendFloat(dst, smt.FPVal(f), fmtc, in.concInt(a[3], "prec"), in.concInt(a[4], "bitsize")))
+		fc := a[2].(*smt.Term)
+		if !fc.IsConst() {
+			fc = in.Ctx.Concretize(fc)
+		}
+		fmtc := byte(fc.Val.Uint64())
+		return in.appendBytes(a[0].(SliceV), strconv.AppendFloat(nil, smt.FPVal(f), fmtc, in.concInt(a[3], "prec"), in.concInt(a[4], "bitsize")))
 	}
 	S["strconv.ParseFloat"] = func(in *Interp, a []Value) Value {
 		s := string(in.concreteBytes(a[0], "ParseFloat"))
